@@ -35,11 +35,14 @@ package connectconformance
 //@ func runTestCasesForServer$2
 //@   requires refServerFinished != nil && !chanClosed[refServerFinished] && serverProcess != nil && serverProcess.stderr != nil
 //@   requires wfResults(results) && errPrinter != nil && testCaseNameSet != nil
-//@   modifies held, map[string]string, chanClosed, rdPos
+//@   modifies held, map[string]string, chanClosed, rdPos, ppN, sbN
 //@   ensures chanClosed[refServerFinished]
 //@   //# attribution: a line is recorded as feedback only under a name of this batch and only in the form "name: message"; anything else non-empty is passed through
 //@   assert_at "results.recordSideband(parts[0], parts[1])": has(testCaseNameSet, parts[0]) && str == parts[0] + ": " + parts[1]
 //@   assert_at "errPrinter.PrefixPrintf(": !isSideband && str != ""
+//@   //# every non-empty line ends up in exactly one place: recorded as feedback or passed on to the user
+//@   snapshot_at "call:r.ReadString(": linesBefore = ppN[0] + sbN[0]
+//@   assert_at "binop:if err != nil {": str != "" ==> ppN[0] + sbN[0] == linesBefore + 1
 //@   //# the reader only stops after the chunk it got together with the error has been looked at: at the return the
 //@   //# trimmed form of the last chunk exists (a last line without newline is still attributed or passed through)
 //@   assert_at "return": str == strTrimSpace(origLine)
@@ -54,7 +57,7 @@ package connectconformance
 //@ func runTestCasesForServer
 //@   requires wfResults(results) && startServer != nil && client != nil && logPrinter != nil && errPrinter != nil && ctx != nil
 //@   requires (forall i int :: 0 <= i && i < len(testCases) ==> testCases[i] != nil && testCases[i].Request != nil) && len(testCases) <= 1073741824
-//@   modifies prN, held, atomicI32, map[string]testOutcome, sendOK, startedProc, abortN, chanClosed, selWait, wrOut, wireFmt, rdPos, rdMsgN, mapof(tracer.Tracer.traces), tracer.Tracer.traces,
+//@   modifies prN, ppN, sbN, held, atomicI32, map[string]testOutcome, sendOK, startedProc, abortN, chanClosed, selWait, wrOut, wireFmt, rdPos, rdMsgN, mapof(tracer.Tracer.traces), tracer.Tracer.traces,
 //@            map[string]struct{}, map[string]string, []*conformancev1.Header, conformancev1.ClientCompatRequest.*, conformancev1.ServerCompatResponse.*, conformancev1.ClientCompatResponse.*, conformancev1.RawHTTPRequest.Headers
 //@   ensures @stopped startedProc[0] != old(startedProc[0]) && startedProc[0] != nil ==> abortN[startedProc[0].processController] > old(abortN)[startedProc[0].processController] //# a server that was started is asked to stop
 //@   ensures @accounted forall i int :: 0 <= i && i < len(testCases) ==>
@@ -89,7 +92,7 @@ package connectconformance
 //@   requires err == nil ==> resp != nil
 //@   requires resp != nil ==> (typeis(resp.Result, *conformancev1.ClientCompatResponse_Error) ==> unbox(resp.Result, *conformancev1.ClientCompatResponse_Error) != nil) &&
 //@        (typeis(resp.Result, *conformancev1.ClientCompatResponse_Response) ==> unbox(resp.Result, *conformancev1.ClientCompatResponse_Response) != nil) //# oneof wrappers of a decoded message are never nil pointers
-//@   modifies prN, held, atomicI32, map[string]testOutcome, map[string]string, *[]error, []error
+//@   modifies prN, held, atomicI32, map[string]testOutcome, map[string]string, *[]error, []error, sbN
 //@   ensures @recorded has(results.outcomes, name)
 //@   //# feedback of a reference client is attributed to the case the response names (first argument = the test name)
 //@   assert_at "call:results.recordSideband("#*: operand(2) == resp.TestName
